@@ -344,6 +344,13 @@ def family(w, ws, tier):
         out.append(OP(cc, *[f1, f2, ID("h", 1)][:n]))
     for fl in FLAG2:
         out += [CD(OP(fl, A, B), Cc, A), OP(fl, A, k1), OP(fl, OP("+", A, k1), k2), OP(fl, A, C(0, w)), OP(fl, NEG(A), k1)]
+    # every two-operand flag of SPEC (FLAG_SIGN_ADD included) on identifiers, on one constant and on constants only (the
+    # constant-folding entry simp_flag_cst re-enters the simplifier: seed C02-2)
+    for fl in spec.FLAGS2:
+        out += [OP(fl, A, B), OP(fl, k1, A), OP(fl, k1, k2)]
+    out += [OP("FLAG_EQ", k1)]
+    for fl in spec.FLAGS3:
+        out += [OP(fl, k1, k2, C(1, 1)), OP(fl, k1, k2, f1)]
     cfc = OP("FLAG_SUB_CF", A, B)
     for fl in spec.FLAGS3:
         out += [OP(fl, A, B, f1), OP(fl, A, B, cfc), OP(fl, A, k1, f1), OP(fl, A, B, C(0, 1)), OP(fl, A, B, C(1, 1))]
